@@ -104,6 +104,8 @@ class Undecided(Exception):
 
 def qualified(ob):
     mod = ob['module']
+    if ob.get('pkg') == 'verus':
+        return 'lemmas/' + mod + '.rs::' + ob['harness']
     return ('verif_contracts::' if mod == 'lib' else f'{mod}::verif_contracts::') + ob['harness']
 
 
@@ -123,8 +125,28 @@ def kani_cmd(pkg, features, harnesses, tier, jobs, out_json, timeout, extra=(), 
     return cmd
 
 
+def run_verus(obs):
+    """Verus lemmas (code-free inductions over the contracts): one file per obligation."""
+    results = {}
+    t0 = time.time()
+    for o in obs:
+        f = os.path.join(VERIF, 'lemmas', o['module'] + '.rs')
+        p = subprocess.run(['verus', f, '--triggers-mode', 'silent'], cwd=os.path.join(VERIF, 'lemmas'), stdout=subprocess.PIPE, stderr=subprocess.STDOUT, text=True)
+        m = re.search(r'verification results:: (\d+) verified, (\d+) errors', p.stdout)
+        if m and int(m.group(2)) == 0 and int(m.group(1)) > 0:
+            results[o['name']] = dict(status='discharged', checks_total=int(m.group(1)), covers=0, stats={}, failed=[], output='')
+        elif m:
+            results[o['name']] = dict(status='failed', checks_total=int(m.group(1)), covers=0, stats={}, output=p.stdout[-3000:],
+                                      failed=[dict(description='Verus: lemma not verified', function=o['module'], location={'file': f, 'line': '?'}, category='lemma')])
+        else:
+            results[o['name']] = dict(status='undecided', reason='verus produced no result: ' + p.stdout[-300:], checks=[], stats={}, output=p.stdout[-3000:])
+    return results, time.time() - t0, ['verus', 'lemmas/*.rs']
+
+
 def run_group(scratch, pkg, features, obs, tier, jobs):
     """Run one cargo-kani invocation for obligations sharing package+features. Returns dict name->result."""
+    if pkg == 'verus':
+        return run_verus(obs)
     out_json = os.path.join(scratch, f'kani-{pkg}-{"-".join(features) or "default"}.json')
     if os.path.exists(out_json):
         os.remove(out_json)
@@ -235,7 +257,7 @@ def run_native(scratch, ob, test_src):
     name = m.group(1)
     with open(cf, 'a') as f:
         f.write('\n' + test_src + '\n')
-    cmd = ['cargo', 'kani', 'playback', '-Z', 'concrete-playback', '-p', ob['pkg']]
+    cmd = ['cargo', 'kani', 'playback', '-Z', 'concrete-playback', '-p', ob['pkg'], '--lib']
     feats = tuple(ob['features']) + ('verif_replay',)
     cmd += ['--features', ','.join(feats), '--', name]
     p = subprocess.run(cmd, cwd=scratch, env=dict(KANI_ENV, RUST_BACKTRACE='0'), stdout=subprocess.PIPE,
@@ -291,7 +313,18 @@ def load_known():
     return known
 
 
-def match_known(known, prop, ob, fc):
+def _source_line(scratch, loc):
+    try:
+        f = loc.get('file') or ''
+        path = f if os.path.isabs(f) else os.path.join(scratch, f)
+        lines = open(path).read().split('\n')
+        n = int(loc.get('line') or 0)
+        return '\n'.join(lines[max(0, n - 2):n + 1])
+    except Exception:
+        return ''
+
+
+def match_known(known, prop, ob, fc, scratch=''):
     for k in known:
         if k['property'] != prop:
             continue
@@ -300,6 +333,8 @@ def match_known(known, prop, ob, fc):
         if k['check'] not in fc['description']:
             continue
         if k.get('function') and k['function'] not in (fc.get('function') or ''):
+            continue
+        if k.get('source_text') and k['source_text'] not in _source_line(scratch, fc.get('location') or {}):
             continue
         return k
     return None
@@ -310,7 +345,7 @@ def match_known(known, prop, ob, fc):
 # ------------------------------------------------------------------------------------------------
 
 def scan_assumptions(obs):
-    mods = sorted({(o['pkg'], o['module']) for o in obs})
+    mods = sorted({(o['pkg'], o['module']) for o in obs if o['pkg'] != 'verus'})
     n_assume = n_stub = 0
     for pkg, mod in mods:
         f = os.path.join(VERIF, CONTRACT_DIRS[pkg][1], mod + '.rs')
@@ -377,7 +412,7 @@ def cmd_check(prop, tier, repo, seed):
             elif r['status'] == 'failed':
                 unknown_fc = []
                 for fc in r['failed']:
-                    k = match_known(known, prop, o, fc)
+                    k = match_known(known, prop, o, fc, scratch)
                     if k:
                         known_hits.append((o, k))
                     else:
@@ -390,6 +425,10 @@ def cmd_check(prop, tier, repo, seed):
         # replay each violation
         vio_lines = []
         for o, r in violations:
+            if o['pkg'] == 'verus':
+                path = write_replay(prop, o, r, [], r.get('output', ''), 'not-run', '', repo)
+                vio_lines.append((f'VIOLATION property={prop} replay={path} no-failing-input-found', o, r, 'not-run'))
+                continue
             tests, kout = obtain_counterexample(scratch, o, tier)
             native, nout = ('not-run', '')
             if tests:
